@@ -5,7 +5,7 @@ ID = "C17"
 SHRINK = False
 RULE = ("native executions (GOMAXPROCS in {1,2,8}) of 1..8 racing callers plus 0..3 late callers of Once1/Once2/Once3.Do with distinct functions; the running function is gated "
         "by the harness until a random number of further callers have arrived; events call/fstart/fend/ret stamped by one atomic counter; "
-        "every trace must be accepted by the Lean transition system of sync.Once + wrapper and satisfy the history predicate; non-trivial = at least 2 callers")
+        "every trace must be accepted by the Lean transition system of sync.Once + wrapper and satisfy the history predicate; scenarios with error-typed last results (Once1[error], Once2[int,error], Once3[int,int,error]; nil and non-nil), with functions that panic (the invocation still counts, later callers get zero values and invoke nothing) and with late callers passing a nil function; non-trivial = at least 2 callers")
 ASSUMPTIONS = ["Go memory-model visibility of the result fields follows from sync.Once's documented happens-before (trusted)", "sync.Mutex and atomic flag by contract"]
 
 
